@@ -428,3 +428,36 @@ func c04(c *an.Ctx) {
 		lockOrder(c, "C04.R5")
 	}
 }
+
+func init() {
+	old := All["C04"].Run
+	All["C04"].Run = func(c *an.Ctx) {
+		old(c)
+		c04forceFlushWaits(c)
+	}
+	All["C04"].Rules += " R9"
+	addLevel("C04", "a forced flush waits for the running background snapshot (shard.waitSnapshot) before it swaps the tables itself.")
+}
+
+// c04forceFlushWaits — C04.R9.  Two writeSnapshot calls must not overlap: the second would drop the
+// first snapshot table from the query view before its files are published.  ForceFlush therefore
+// waits on the shard's snapshot wait-group first — the shard's method, not the storage engine's
+// (empty) method of the same name.
+func c04forceFlushWaits(c *an.Ctx) {
+	const E = "engine"
+	r := c.Rule("C04.R9", "K-ORDER", E+": ForceFlush of both storage engines — shard.waitSnapshot ≺ prepareSnapshot ≺ writeSnapshot")
+	for _, spec := range []string{E + ":tsstoreImpl.ForceFlush", E + ":ColumnStoreImpl.ForceFlush"} {
+		f := fn(r, spec)
+		if f == nil {
+			continue
+		}
+		wait := f.Find(call(r, E+":shard.waitSnapshot"))
+		prep := f.Find(call(r, E+":shard.prepareSnapshot"))
+		wr := f.Find(an.MCallNamed("writeSnapshot", `.*`))
+		if r.Failed() {
+			continue
+		}
+		f.Precedes(r, wait, wr, an.OrderOpt{Label: "shard.waitSnapshot ≺ writeSnapshot"})
+		f.Precedes(r, prep, wr, an.OrderOpt{Label: "prepareSnapshot ≺ writeSnapshot"})
+	}
+}
